@@ -256,13 +256,10 @@ func (g *Engine) registerIntrinsics() {
 				site = e.siteOf(e.stack[len(e.stack)-1])
 			}
 			e.reportViolation("assert", tag, site, nc)
-			if c.IsFalse() {
-				e.end("stop", "assertion "+tag+" always fails here")
-			}
-			if e.sol.Check(c) != Sat {
-				e.end("stop", "assertion "+tag+" fails for every input of this path")
-			}
-			e.assertPC(c)
+			// The failed assertion is NOT assumed afterwards: a later assertion (possibly of
+			// another property, which a different check reports) must see the same states.
+			// What the harness does after a failed assertion is not part of any claim.
+			e.pathViolated = true
 		default:
 			e.known[c.id] = true
 		}
